@@ -57,6 +57,13 @@ impl SearchTimer {
     /// # Returns
     /// `true` if time limit exceeded, `false` otherwise
     pub fn should_stop(&self) -> bool {
+        #[cfg(flounder_verif)]
+        {
+            // verification hook: deterministic deadline expressed in nodes
+            if let Some(stop) = verif_hook::poll(self.nodes_searched) {
+                return stop;
+            }
+        }
         if let (Some(start), Some(limit)) = (self.start_time, self.time_limit) {
             start.elapsed() >= limit
         } else {
@@ -161,6 +168,40 @@ impl SearchTimer {
         } else {
             None
         }
+    }
+}
+
+/// Verification hooks (compiled only with `--cfg flounder_verif`): a deadline expressed in nodes instead of wall-clock
+/// time, and a counter of nodes expanded after the deadline was first reported.
+#[cfg(flounder_verif)]
+pub mod verif_hook {
+    use std::sync::atomic::{AtomicU64, Ordering};
+    pub static NODE_LIMIT: AtomicU64 = AtomicU64::new(u64::MAX);
+    pub static FIRST_STOP_AT: AtomicU64 = AtomicU64::new(u64::MAX);
+    pub static POLLS: AtomicU64 = AtomicU64::new(0);
+
+    pub fn set_node_limit(limit: Option<u64>) {
+        NODE_LIMIT.store(limit.unwrap_or(u64::MAX), Ordering::SeqCst);
+        FIRST_STOP_AT.store(u64::MAX, Ordering::SeqCst);
+        POLLS.store(0, Ordering::SeqCst);
+    }
+
+    pub fn poll(nodes: u64) -> Option<bool> {
+        let limit = NODE_LIMIT.load(Ordering::SeqCst);
+        if limit == u64::MAX {
+            return None;
+        }
+        POLLS.fetch_add(1, Ordering::SeqCst);
+        let stop = nodes >= limit;
+        if stop && FIRST_STOP_AT.load(Ordering::SeqCst) == u64::MAX {
+            FIRST_STOP_AT.store(nodes, Ordering::SeqCst);
+        }
+        Some(stop)
+    }
+
+    pub fn first_stop_at() -> Option<u64> {
+        let v = FIRST_STOP_AT.load(Ordering::SeqCst);
+        if v == u64::MAX { None } else { Some(v) }
     }
 }
 
